@@ -65,6 +65,14 @@ Theorem deps_agree : wire_proj gogo_deps = wire_proj pulsar_deps.
 Proof. apply dec_eq_sound. vm_compute. reflexivity. Qed.
 Print Assumptions deps_agree.
 
+(** The gRPC service descriptors in the generated Go code of both families ([grpc.ServiceDesc]:
+    service name, method names, the request type each handler decodes, streaming flags, the
+    .proto file named in the metadata) are exactly the services the file descriptors declare. *)
+Theorem grpc_descs_agree :
+  gogo_grpc = grpc_proj gogo_files /\ pulsar_grpc = grpc_proj (in_scope gogo_scope pulsar_files).
+Proof. split; apply dec_eq_sound; vm_compute; reflexivity. Qed.
+Print Assumptions grpc_descs_agree.
+
 (** Every transaction message (request type of a service marked [cosmos.msg.v1.service]) is
     registered as an [sdk.Msg] implementation in the application's interface registry. *)
 Theorem every_msg_registered :
